@@ -1,7 +1,7 @@
 (* C06 — property theorems only.  Each is closed by `exact` of a lemma of C06_Proofs*.v. *)
 From Coq Require Import List NArith Bool Arith.
 From Dae.gen Require Import C06_Extracted.
-From Dae Require Import C06_Spec C06_Model C06_Async C06_Session C06_Proofs.
+From Dae Require Import C06_Spec C06_Model C06_Async C06_Session C06_Clock C06_Proofs.
 Import ListNotations.
 Open Scope N_scope.
 
@@ -153,6 +153,32 @@ Example C06_usable_after_timeout_nonvacuous :
   /\ (let '(r, st, rest) := sniff_tcp script in relay_read_all 32768 st rest)
      = ([22; 3; 1; 0; 100; 1; 0; 1; 2], RsEof).
 Proof. exact C06_usable_after_timeout_nonvacuous_proof. Qed.
+
+(* ---------------------------------------------------------------- never waits past its timeout *)
+(* SniffTcp on a virtual clock, with the deadline policy EXTRACTED from sniffer.go (fixed once in
+   NewStreamSniffer, every read armed with that absolute value).  For every arrival schedule of the
+   client (any delays, any chunks, however many) and every parser: SniffTcp returns no later than
+   construction time + timeout (parsing itself is not timed), every read was armed with exactly
+   that deadline, and the buffer holds exactly the chunks consumed.  The bound is on the WHOLE
+   sniff, not per read. *)
+Theorem C06_sniff_wait_bounded :
+  forall (origin timeout : N) (parse : bytes -> outcome) (sched : list arrival),
+    let '(r, t, buf, rest, ds) := clock_sniff extracted_policy origin timeout parse sched in
+    t <= origin + timeout
+    /\ Forall (fun d => d = origin + timeout) ds
+    /\ exists n : nat, rest = skipn n sched /\ buf = concat (map ar_data (firstn n sched)).
+Proof. exact C06_sniff_wait_bounded_proof. Qed.
+Print Assumptions C06_sniff_wait_bounded.
+
+(* The variant that re-arms the deadline before every read (deadline = now + timeout in the read path)
+   turns the sniff timeout into a per-read idle timeout: a drip-feeding client keeps SniffTcp waiting
+   without bound. *)
+Theorem C06_sniff_wait_rearmed_refuted :
+  exists (timeout : N) (parse : bytes -> outcome) (sched : list arrival),
+    let '(r, t, buf, rest, ds) := clock_sniff RearmedPerRead 0 timeout parse sched in
+    4 * timeout < t.
+Proof. exact C06_sniff_wait_rearmed_refuted_proof. Qed.
+Print Assumptions C06_sniff_wait_rearmed_refuted.
 
 (* ---------------------------------------------------------------- the asynchronous fallback *)
 (* readStreamOnceAsync (readers without read deadlines).  As long as the deadline does not fire it is
